@@ -549,6 +549,18 @@ class Repo:
             return self.const(m, e.args[0], _depth + 1) ** self.const(m, e.args[1], _depth + 1)
         if isinstance(e, ast.Tuple):
             return tuple(self.const(m, x, _depth + 1) for x in e.elts)
+        if isinstance(e, ast.Call) and isinstance(e.func, ast.Attribute) and e.func.attr == 'pack' and \
+                not e.keywords and e.args:
+            # struct.pack(<literal format>, <literal integers>...): a constant byte string
+            r = self.resolve_expr(m, e.func.value)
+            if isinstance(r, External) and r.qualname == 'struct':
+                import struct as _struct
+                vals = [self.const(m, a, _depth + 1) for a in e.args]
+                if isinstance(vals[0], str) and all(isinstance(v, int) and not isinstance(v, bool) for v in vals[1:]):
+                    try:
+                        return _struct.pack(*vals)
+                    except _struct.error:
+                        raise KeyError(ast.unparse(e))
         raise KeyError(ast.unparse(e))
 
     def try_const(self, m: Module, e: ast.expr, default=None):
